@@ -43,33 +43,52 @@ func (m *Mutex) unlockQuiet() {
 	m.held = false
 }
 
-// RWMutex mirrors sync.RWMutex, including writer preference: a waiting writer blocks new readers.
+// RWMutex mirrors sync.RWMutex as implemented by the Go runtime: writers are serialised by an inner
+// mutex; the writer that holds it announces itself (from then on new readers block) and waits for
+// the active readers to leave; when it unlocks, ALL readers that blocked behind it are admitted
+// before the next writer can announce itself. (So a reader queued behind writer A runs before a
+// writer B that queued behind A as well - which matters for what such a reader can observe.)
 type RWMutex struct {
-	writer         bool
-	readers        int
-	writersWaiting int
+	wHeld     bool // inner writer mutex
+	announced bool // the writer holding the inner mutex has announced itself
+	readers   int  // active readers
+	waiting   []*rwWaiter
 }
 
+type rwWaiter struct{ released bool }
+
 func (m *RWMutex) Lock() {
-	// scheduling point before the writer announces itself (the announcement already blocks new readers)
-	Yield("wlock-enter")
-	m.writersWaiting++
-	block("wlock", "a write lock", func() bool { return !m.writer && m.readers == 0 })
-	m.writersWaiting--
-	m.writer = true
+	// scheduling point, then take the inner mutex and announce (one atomic step: a reader arriving in
+	// between is equivalent to one arriving just before)
+	block("wlock", "a write lock (other writer)", func() bool { return !m.wHeld })
+	m.wHeld = true
+	m.announced = true
+	block("wlock-readers", "a write lock (active readers)", func() bool { return m.readers == 0 })
 }
 
 func (m *RWMutex) Unlock() {
-	if !m.writer {
+	if !m.wHeld || !m.announced {
 		panic("sync: Unlock of unlocked RWMutex")
 	}
-	m.writer = false
+	m.announced = false
+	for _, w := range m.waiting { // readers that blocked behind this writer go first
+		w.released = true
+		m.readers++
+	}
+	m.waiting = nil
+	m.wHeld = false
 	Yield("wunlock")
 }
 
 func (m *RWMutex) RLock() {
-	block("rlock", "a read lock", func() bool { return !m.writer && m.writersWaiting == 0 })
-	m.readers++
+	Yield("rlock")
+	if !m.announced {
+		m.readers++
+		return
+	}
+	w := &rwWaiter{}
+	m.waiting = append(m.waiting, w)
+	block("rlock-wait", "a read lock", func() bool { return w.released })
 }
 
 func (m *RWMutex) RUnlock() {
@@ -82,16 +101,16 @@ func (m *RWMutex) RUnlock() {
 
 func (m *RWMutex) TryLock() bool {
 	Yield("trywlock")
-	if m.writer || m.readers > 0 {
+	if m.wHeld || m.readers > 0 {
 		return false
 	}
-	m.writer = true
+	m.wHeld, m.announced = true, true
 	return true
 }
 
 func (m *RWMutex) TryRLock() bool {
 	Yield("tryrlock")
-	if m.writer || m.writersWaiting > 0 {
+	if m.announced {
 		return false
 	}
 	m.readers++
@@ -127,10 +146,16 @@ func (c *Cond) Wait() {
 	case *Mutex:
 		l.unlockQuiet()
 	case *RWMutex:
-		if !l.writer {
+		if !l.wHeld || !l.announced {
 			panic("sync: Unlock of unlocked RWMutex")
 		}
-		l.writer = false
+		l.announced = false
+		for _, rw := range l.waiting {
+			rw.released = true
+			l.readers++
+		}
+		l.waiting = nil
+		l.wHeld = false
 	default:
 		c.L.Unlock()
 	}
